@@ -1,7 +1,259 @@
-import NimaVerif.Model.Edit
-/-! # C05 — placeholder until the theorems are in. -/
+import NimaVerif.Lemmas.EditOps
+/-!
+# C05 — a successful edit yields exactly the requested attribute change
+
+SPEC: `Model/AttrTree.lean` (`denote`, `specSet`, `specRemove`, `renderedTree`).
+The theorems relate `setValue` / `removeValue` of `Model/Edit.lean` to that spec, for every document,
+path text and value in the stated class.
+-/
 namespace Nima.C05
-theorem placeholder_rm_missing_key (d : Doc) (h : d.noTarget = some .raw) :
-    (removeValue "a".toList d).1 = .error .value := by
-  simp [removeValue, h, splitScopeNpath, resolveTarget]
+open Nima Node
+
+/-- "the value now at the path is not a reference": neither an identifier-valued binding nor an
+    inherited name. Such values make `set` write through the reference (C11). -/
+def NoRefAt (t : AttrTree) (names : List Text) : Prop :=
+  ∀ nm, treeAt t names ≠ some (.leaf (.ident nm))
+
+theorem set_plain_refines (d : Doc) (hw : WF d) (p seg : Text) (v : Node)
+    (hp : formatNPath currentAnchor p = .ok [seg])
+    (hroot : findAttrpathRoot d.target.setValues seg = none)
+    (hnoref : NoRefAt (denote d.target) [seg]) :
+    ∃ d', setValue p (.one v) d = (.ok (), d') ∧
+      specSet (denote d.target) [seg] v = some (denote d'.target) := by
+  obtain ⟨c, vs, o, m, r, ht⟩ := (isSet_iff _).mp hw.isSet
+  have hfin := finalOK_of_noref d.target d.target [] seg hw.keys rfl hw.isSet hnoref
+  obtain ⟨d', e1, e2, _, _, hd⟩ := finalSet_denote d.target d.target true [] seg v d hw.ids hw.keys rfl hw.isSet hfin.1 hfin.2
+  refine ⟨d', ?_, ?_⟩
+  · rw [setValue_unscoped p v d hw.editable (formatNPath_unscoped p _ hp)]
+    simp only [setValueInAttrset, hp, ht, setSid?, findAttrpathLeaf_single, List.isEmpty_nil, if_true]
+    rw [ht] at e1 e2 hroot
+    simp only [hroot, Option.isSome_none, Bool.false_eq_true, if_false]
+    cases hf : findBinding (Node.set c vs o m r).setValues seg with
+    | some b => exact e1 b hf
+    | none => exact e2 hf
+  · rw [hd, ht]; simp [specSet, specSetK, AttrTree.kids]
+
+theorem set_nested_explicit_refines (d : Doc) (hw : WF d) (p : Text) (seg0 seg1 : Text) (rest : List Text) (v : Node)
+    (hp : formatNPath currentAnchor p = .ok (seg0 :: seg1 :: rest))
+    (hroot : findAttrpathRoot d.target.setValues seg0 = none)
+    (hplain : ∀ k ∈ (seg0 :: seg1 :: rest).dropLast, plainKey k = true)
+    (hfresh : FreshFor d.target d.next (2 * (rest.length + 1)))
+    (hnoref : NoRefAt (denote d.target) (seg0 :: seg1 :: rest))
+    (d' : Doc) (hrun : setValue p (.one v) d = (.ok (), d')) :
+    specSet (denote d.target) (seg0 :: seg1 :: rest) v = some (denote d'.target) := by
+  obtain ⟨c, vs, o, m, r, ht⟩ := (isSet_iff _).mp hw.isSet
+  rw [setValue_unscoped p v d hw.editable (formatNPath_unscoped p _ hp)] at hrun
+  have hleaf := findAttrpathLeaf_no_root d.target seg0 (seg1 :: rest) hroot
+  rw [ht] at hleaf hroot
+  obtain ⟨final, hlast, hsplit⟩ := getLast_split (seg0 :: seg1 :: rest) (by simp)
+  have hlen : (seg0 :: seg1 :: rest).dropLast.length = rest.length + 1 := by simp
+  simp only [setValueInAttrset, hp, ht, setSid?, hleaf, hroot, List.isEmpty_cons, Bool.false_eq_true, if_false,
+    Option.isSome_none] at hrun
+  generalize (seg0 :: seg1 :: rest).dropLast = init at *
+  simp only [EditM.bind_apply, hlast] at hrun
+  cases hwk : resolveParentWalk true (Node.set c vs o m r) init d with
+  | mk res d1 =>
+    cases res with
+    | error e => simp [hwk] at hrun
+    | ok parent =>
+      simp only [hwk] at hrun
+      have hfs : FinalStep (Node.set c vs o m r) parent true final v d1 d' := by
+        constructor
+        · intro b hb; simpa [hb] using hrun
+        · intro hb; simpa [hb] using hrun
+      have hinv : Inv d.target d.next (2 * init.length) := by
+        refine ⟨hw.ids, hw.keys, ?_⟩
+        rw [hlen]; exact hfresh
+      have hfin : ∀ par, subAt d.target ([] ++ init) = some par → FinalOK par final := by
+        intro par hpar
+        cases hs : par.isSet with
+        | true =>
+          refine finalOK_of_noref d.target par init final hw.keys (by simpa using hpar) hs ?_
+          rw [hsplit]; exact hnoref
+        | false =>
+          have : par.setValues = [] := by cases par <;> simp_all [isSet, setValues]
+          exact ⟨fun b hb => by simp [this, findBinding] at hb, by simp [this, inheritMentions]⟩
+      rw [← ht] at hwk
+      obtain ⟨_, Y, hY, hd⟩ := nested_set_refines (Node.set c vs o m r) true final v _ d d.target [] parent d1 d'
+        hinv rfl hw.isSet hplain hfin hwk hfs
+      rw [hsplit] at hY
+      rw [hd, ht] at *
+      simp [specSet, AttrTree.kids] at hY ⊢
+      exact hY
+
+theorem rm_plain_refines (d : Doc) (hw : WF d) (p seg : Text)
+    (hp : formatNPath currentAnchor p = .ok [seg])
+    (hroot : findAttrpathRoot d.target.setValues seg = none)
+    (hex : (findBinding d.target.setValues seg).isSome = true) :
+    ∃ d', removeValue p d = (.ok (), d') ∧
+      specRemove (denote d.target) [seg] false = some (denote d'.target) := by
+  obtain ⟨c, vs, o, m, r, ht⟩ := (isSet_iff _).mp hw.isSet
+  rw [removeValue_unscoped p d hw.editable (formatNPath_unscoped p _ hp)]
+  rw [ht] at hroot hex
+  cases hf : findBinding (Node.set c vs o m r).setValues seg with
+  | none => simp [hf] at hex
+  | some b =>
+    obtain ⟨i, ne, val, bf, af, pre, post, rfl, hvs, hpre⟩ := findBinding_some _ _ _ hf
+    refine ⟨d.updSet c (delF i), ?_, ?_⟩
+    · simp only [removeValueInAttrset, hp, ht, findAttrpathLeaf_single, List.isEmpty_nil, if_true, hroot, hf]
+      simp [setDelItem_some _ seg c i ne val bf af d hf rfl]
+    · simp only [Doc.updSet_target]
+      rw [denote_del_at d.target hw.ids hw.keys [] c vs o m r (by rw [ht]; rfl) seg _ hf i rfl _ (delF_isDel i)]
+      rw [ht]
+      have hl : (Kids.lookup seg (denoteL vs)).isSome = true := by
+        rw [Kids.lookup_isSome_iff]
+        simp only [setValues] at hvs; subst hvs
+        simp [Kids.keys]
+      simp [specRemove, specRemoveK_single, hl]
+
+theorem rm_nested_explicit_refines (d : Doc) (hw : WF d) (p : Text) (seg0 seg1 : Text) (rest : List Text)
+    (hp : formatNPath currentAnchor p = .ok (seg0 :: seg1 :: rest))
+    (hroot : findAttrpathRoot d.target.setValues seg0 = none)
+    (hplain : ∀ k ∈ (seg0 :: seg1 :: rest).dropLast, plainKey k = true)
+    (d' : Doc) (hrun : removeValue p d = (.ok (), d')) :
+    specRemove (denote d.target) (seg0 :: seg1 :: rest) false = some (denote d'.target) := by
+  obtain ⟨c, vs, o, m, r, ht⟩ := (isSet_iff _).mp hw.isSet
+  rw [removeValue_unscoped p d hw.editable (formatNPath_unscoped p _ hp)] at hrun
+  have hleaf := findAttrpathLeaf_no_root d.target seg0 (seg1 :: rest) hroot
+  rw [ht] at hleaf hroot
+  obtain ⟨final, hlast, hsplit⟩ := getLast_split (seg0 :: seg1 :: rest) (by simp)
+  simp only [removeValueInAttrset, hp, ht, hleaf, hroot, List.isEmpty_cons, Bool.false_eq_true, if_false,
+    Option.isSome_none] at hrun
+  generalize (seg0 :: seg1 :: rest).dropLast = init at *
+  simp only [EditM.bind_apply, hlast] at hrun
+  cases hwk : resolveParentWalk false (Node.set c vs o m r) init d with
+  | mk res d1 =>
+    obtain ⟨e1, e2⟩ := resolveParentWalk_false init _ d res d1 hplain hwk
+    subst e1
+    cases res with
+    | error e => simp [hwk] at hrun
+    | ok parent =>
+      simp only [hwk] at hrun
+      obtain ⟨hsub, hps⟩ := e2 parent rfl
+      obtain ⟨pc, pvs, po, pm, pr, rfl⟩ := (isSet_iff parent).mp (hps rfl)
+      cases hf : findBinding (Node.set pc pvs po pm pr).setValues final with
+      | none => rw [setDelItem_none _ _ _ hf] at hrun; cases hrun
+      | some b =>
+        obtain ⟨i, ne, val, bf, af, pre, post, rfl, hvs, hpre⟩ := findBinding_some _ _ _ hf
+        rw [setDelItem_some _ final pc i ne val bf af d1 hf rfl] at hrun
+        injection hrun with _ hrun
+        subst hrun
+        simp only [Doc.updSet_target]
+        rw [← ht] at hsub
+        rw [denote_del_at d1.target hw.ids hw.keys init pc pvs po pm pr hsub final _ hf i rfl _ (delF_isDel i)]
+        have htp := treeAt_denote init d1.target _ hw.keys hsub
+        rw [ht] at htp ⊢
+        rw [← hsplit]
+        refine specRemove_graft final init _ _ htp ?_
+        rw [Kids.lookup_isSome_iff]
+        simp only [setValues] at hvs; subst hvs
+        simp [Kids.keys]
+
+theorem set_attrpath_root_refused (d : Doc) (hw : WF d) (p seg : Text) (v : Node)
+    (hp : formatNPath currentAnchor p = .ok [seg])
+    (hroot : (findAttrpathRoot d.target.setValues seg).isSome = true) :
+    setValue p (.one v) d = (.error .value, d) := by
+  obtain ⟨c, vs, o, m, r, ht⟩ := (isSet_iff _).mp hw.isSet
+  rw [setValue_unscoped p v d hw.editable (formatNPath_unscoped p _ hp)]
+  rw [ht] at hroot
+  simp only [setValueInAttrset, hp, ht, setSid?, findAttrpathLeaf_single, List.isEmpty_nil, if_true, hroot]
+  rfl
+
+theorem set_attrpath_leaf_refines (d : Doc) (hw : WF d) (p : Text) (segs : List Text) (v : Node)
+    (hp : formatNPath currentAnchor p = .ok segs)
+    (hleaf : (findAttrpathLeaf d.target segs).isSome = true) :
+    ∃ d', setValue p (.one v) d = (.ok (), d') ∧
+      specSet (denote d.target) segs v = some (denote d'.target) := by
+  obtain ⟨c, vs, o, m, r, ht⟩ := (isSet_iff _).mp hw.isSet
+  cases hl : findAttrpathLeaf d.target segs with
+  | none => simp [hl] at hleaf
+  | some leaf =>
+    obtain ⟨st, par0, hwalk, hlast⟩ := findAttrpathLeaf_some _ _ _ hl
+    obtain ⟨hlen, hch⟩ := walk_chain _ _ _ _ _ hw.keys hw.isSet hwalk
+    have hne : segs ≠ [] := by intro e; simp [e] at hlen
+    obtain ⟨par, i, final, val, bf, af, h1, h2, h3, h4, h5⟩ := chain_last false segs _ st hne hch hw.isSet
+    rw [hlast] at h1
+    injection h1 with h1; injection h1 with h1a h1b
+    subst h1a h1b
+    refine ⟨d.updBind i v, ?_, ?_⟩
+    · rw [setValue_unscoped p v d hw.editable (formatNPath_unscoped p _ hp)]
+      cases hs : segs with
+      | nil => exact absurd hs hne
+      | cons s0 sr =>
+        rw [hs] at hp hl
+        rw [ht] at hl
+        simp only [setValueInAttrset, hp, ht, setSid?, hl, bindId?, assign_apply]
+    · simp only [Doc.updBind_target]
+      have htp := treeAt_denote _ d.target _ hw.keys h3
+      obtain ⟨pc, pvs, po, pm, pr, rfl⟩ := (isSet_iff par0).mp h4
+      rw [denote_updBind_at v segs.dropLast d.target _ final _ i hw.ids hw.keys h3 h5 rfl,
+        graft_append _ [final] _ _ _ htp, denote_set, graft_single]
+      conv => lhs; rw [h2]
+      rw [ht] at htp ⊢
+      exact specSet_graft v final _ _ _ htp
+
+theorem set_attrpath_new_refines (d : Doc) (hw : WF d) (p : Text) (seg0 seg1 : Text) (rest : List Text) (v : Node)
+    (hp : formatNPath currentAnchor p = .ok (seg0 :: seg1 :: rest))
+    (hroot : (findAttrpathRoot d.target.setValues seg0).isSome = true)
+    (hleaf : findAttrpathLeaf d.target (seg0 :: seg1 :: rest) = none)
+    (hfresh : FreshFor d.target d.next (2 * rest.length))
+    (d' : Doc) (hrun : setValue p (.one v) d = (.ok (), d')) :
+    specSet (denote d.target) (seg0 :: seg1 :: rest) v = some (denote d'.target) := by
+  obtain ⟨c, vs, o, m, r, ht⟩ := (isSet_iff _).mp hw.isSet
+  rw [setValue_unscoped p v d hw.editable (formatNPath_unscoped p _ hp)] at hrun
+  cases hr : findAttrpathRoot d.target.setValues seg0 with
+  | none => simp [hr] at hroot
+  | some root =>
+    obtain ⟨i, val, bf, af, rfl, hm⟩ := findAttrpathRoot_some _ _ _ hr
+    have hkeys := hw.keys
+    have hfam := hw.fam
+    rw [ht] at hleaf hr hm hkeys hfam
+    simp only [setValues] at hm
+    unfold KeysOK at hkeys
+    simp only [denote_set, AttrTree.nodup_node] at hkeys
+    obtain ⟨s2, vs2, m2, r2, rfl, hfam2⟩ := famSet_child c vs o m r i seg0 val bf af hfam hm
+    have hfb := findBinding_of_mem vs seg0 i true _ bf af hkeys hm
+    have hp1 : subAt d.target [seg0] = some (.set s2 vs2 [] m2 r2) := by
+      rw [ht]; simp [subAt, stepInto, setValues, hfb, bindValue?]
+    obtain ⟨final, hlast, hsplit⟩ := getLast_split (seg0 :: seg1 :: rest) (by simp)
+    have hmid : (seg0 :: seg1 :: rest).dropLast = seg0 :: (seg1 :: rest).dropLast := by simp
+    have hlen : (seg1 :: rest).dropLast.length = rest.length := by simp
+    simp only [setValueInAttrset, hp, ht, setSid_set, hleaf, hr, List.isEmpty_cons, Bool.false_eq_true, if_false,
+      setAttrpathValue, bindValue?, List.drop_succ_cons, List.drop_zero, hlast, EditM.bind_apply] at hrun
+    generalize (seg1 :: rest).dropLast = middle at *
+    cases hwk : setAttrpathWalk (.set s2 vs2 [] m2 r2) middle d with
+    | mk res d1 =>
+      cases res with
+      | error e => simp [hwk] at hrun
+      | ok current =>
+        simp only [hwk] at hrun
+        have hfa : FinalAttr c (seg0 :: seg1 :: rest) current final v d1 d' := by
+          cases h1 : findNamedBinding current.setValues final (some true) with
+          | some b => simp [h1] at hrun
+          | none =>
+            simp only [h1, Option.isSome_none, Bool.false_eq_true, if_false] at hrun
+            refine ⟨h1, ?_, ?_⟩
+            · intro b bid hb hbid
+              simp only [hb, hbid, assign_apply] at hrun
+              injection hrun with _ hrun; exact hrun.symm
+            · intro hb csid hcs
+              simp only [hb, hcs] at hrun
+              exact hrun
+        have hinv : Inv d.target d.next (2 * middle.length) := ⟨hw.ids, hw.keys, by rw [hlen]; exact hfresh⟩
+        obtain ⟨_, Y, hY, hd⟩ := attr_set_refines c (seg0 :: seg1 :: rest) final v middle d _ [seg0] current d1 d'
+          hinv hp1 rfl hfam2 hwk hfa
+        rw [hd, ht]
+        obtain ⟨i', ne, val', bf', af', pre, post, e, hvs, hpre⟩ := findBinding_some _ _ _ hfb
+        injection e with e1 _ e2 e3 e4 e5; subst e1 e2 e3 e4 e5
+        subst hvs
+        obtain ⟨hk, _⟩ := keys_split seg0 pre post i true _ bf af hkeys
+        obtain ⟨hl, hu, _⟩ := lookup_split seg0 (denoteL pre) (denoteL post) (denote (.set s2 vs2 [] m2 r2)) hk
+        rw [← hsplit, hmid, List.cons_append]
+        simp only [denote_set, AttrTree.kids] at hY
+        have hl' : Kids.lookup seg0 (denoteL (pre ++ .bind i seg0 true (.set s2 vs2 [] m2 r2) bf af :: post)) =
+            some (.node (denoteL vs2)) := by simpa using hl
+        simp only [specSet, denote_set, graft_single]
+        rw [specSetK_node v _ _ seg0 (middle ++ [final]) (by simp) hl', hY]
+        rfl
+
 end Nima.C05
